@@ -215,6 +215,28 @@ def decToks : List Sexp → Option (List Tok)
     let ts ← decToks xs
     pure (t :: ts)
 
+/-- a name in the wire format is its lexeme; its token kind is what the lexer's keyword test gives
+    (`t_ID`: the upper-cased lexeme is a keyword) — untrusted glue, validated by the printed-token comparison -/
+def nameTok (s : String) : Tok :=
+  match kindOf s.toUpper with
+  | some k =>
+    if k.isKeyword && k != .END_FOR && k != .END_IF && k != .END_WHILE then ⟨k, s⟩ else ⟨.ID, s⟩
+  | none => ⟨.ID, s⟩
+
+def encPhrase : Phrase → Sexp
+  | .ticked lex => str lex
+  | .ident n => list [sym "ident", str n.lex]
+def decPhrase : Sexp → Option Phrase
+  | str s => some (.ticked s)
+  | list [sym "ident", str s] => some (.ident (nameTok s))
+  | _ => none
+def encOptPhrase : Option Phrase → Sexp
+  | some p => encPhrase p
+  | none => sym "none"
+def decOptPhrase : Sexp → Option (Option Phrase)
+  | sym "none" => some none
+  | x => (decPhrase x).map some
+
 def encBool (b : Bool) : Sexp := ofBool b
 def decBool : Sexp → Option Bool
   | sym "T" => some true
@@ -235,21 +257,21 @@ def encExpr : Expr → Sexp
   | .real v => list [sym "real", str v]
   | .str v => list [sym "str", str v]
   | .bool b v => list [sym "bool", encBool b, str v]
-  | .enumc ns n => list [sym "enumc", str ns, str n]
-  | .var n => list [sym "var", str n]
+  | .enumc ns n => list [sym "enumc", str ns, str n.lex]
+  | .var n => list [sym "var", str n.lex]
   | .self => list [sym "self"]
   | .selected => list [sym "selected"]
-  | .param n => list [sym "param", str n]
-  | .field h n => list [sym "field", encExpr h, str n]
+  | .param n => list [sym "param", str n.lex]
+  | .field h n => list [sym "field", encExpr h, str n.lex]
   | .index h i => list [sym "index", encExpr h, encExpr i]
-  | .fcall n ps => list [sym "fcall", str n, list (encParams ps)]
-  | .icall ns n ps => list [sym "icall", str ns, str n, list (encParams ps)]
-  | .ocall h n ps => list [sym "ocall", encExpr h, str n, list (encParams ps)]
+  | .fcall n ps => list [sym "fcall", str n.lex, list (encParams ps)]
+  | .icall ns n ps => list [sym "icall", str ns, str n.lex, list (encParams ps)]
+  | .ocall h n ps => list [sym "ocall", encExpr h, str n.lex, list (encParams ps)]
   | .un op e => list [sym "un", sym (kindName op.kind), str op.lex, encExpr e]
   | .bin l op r => list [sym "bin", encExpr l, sym (kindName op.kind), str op.lex, encExpr r]
 def encParams : Params → List Sexp
   | .nil => []
-  | .cons n e ps => list [str n, encExpr e] :: encParams ps
+  | .cons n e ps => list [str n.lex, encExpr e] :: encParams ps
 end
 
 mutual
@@ -258,22 +280,22 @@ partial def decExpr : Sexp → Option Expr
   | list [sym "real", str v] => some (.real v)
   | list [sym "str", str v] => some (.str v)
   | list [sym "bool", b, str v] => (decBool b).map fun bb => .bool bb v
-  | list [sym "enumc", str ns, str n] => some (.enumc ns n)
-  | list [sym "var", str n] => some (.var n)
+  | list [sym "enumc", str ns, str n] => some (.enumc ns (nameTok n))
+  | list [sym "var", str n] => some (.var (nameTok n))
   | list [sym "self"] => some .self
   | list [sym "selected"] => some .selected
-  | list [sym "param", str n] => some (.param n)
-  | list [sym "field", h, str n] => (decExpr h).map fun hh => .field hh n
+  | list [sym "param", str n] => some (.param (nameTok n))
+  | list [sym "field", h, str n] => (decExpr h).map fun hh => .field hh (nameTok n)
   | list [sym "index", h, i] => do
     let hh ← decExpr h
     let ii ← decExpr i
     pure (.index hh ii)
-  | list [sym "fcall", str n, list ps] => (decParams ps).map fun pp => .fcall n pp
-  | list [sym "icall", str ns, str n, list ps] => (decParams ps).map fun pp => .icall ns n pp
+  | list [sym "fcall", str n, list ps] => (decParams ps).map fun pp => .fcall (nameTok n) pp
+  | list [sym "icall", str ns, str n, list ps] => (decParams ps).map fun pp => .icall ns (nameTok n) pp
   | list [sym "ocall", h, str n, list ps] => do
     let hh ← decExpr h
     let pp ← decParams ps
-    pure (.ocall hh n pp)
+    pure (.ocall hh (nameTok n) pp)
   | list [sym "un", sym k, str s, e] => do
     let kk ← kindOf k
     let ee ← decExpr e
@@ -289,7 +311,7 @@ partial def decParams : List Sexp → Option Params
   | list [str n, e] :: rest => do
     let ee ← decExpr e
     let pp ← decParams rest
-    pure (.cons n ee pp)
+    pure (.cons (nameTok n) ee pp)
   | _ => none
 end
 
@@ -309,10 +331,10 @@ def decCard : Sexp → Option CardTok
   | _ => none
 
 def encInst : InstName → Sexp
-  | .var n => list [sym "var", str n]
+  | .var n => list [sym "var", str n.lex]
   | .self s => list [sym "self", str s]
 def decInst : Sexp → Option InstName
-  | list [sym "var", str n] => some (.var n)
+  | list [sym "var", str n] => some (.var (nameTok n))
   | list [sym "self", str s] => some (.self s)
   | _ => none
 def encOptInst : Option InstName → Sexp
@@ -322,9 +344,9 @@ def decOptInst : Sexp → Option (Option InstName)
   | sym "none" => some none
   | x => (decInst x).map some
 
-def encStep (s : NavStep) : Sexp := list [str s.kl, str s.rel, encOptStr s.phrase]
+def encStep (s : NavStep) : Sexp := list [str s.kl.lex, str s.rel.lex, encOptPhrase s.phrase]
 def decStep : Sexp → Option NavStep
-  | list [str kl, str r, p] => (decOptStr p).map fun pp => ⟨kl, r, pp⟩
+  | list [str kl, str r, p] => (decOptPhrase p).map fun pp => ⟨nameTok kl, nameTok r, pp⟩
   | _ => none
 def decSteps : List Sexp → Option (List NavStep)
   | [] => some []
@@ -334,23 +356,23 @@ def decSteps : List Sexp → Option (List NavStep)
     pure (s :: ss)
 
 def encEv (es : EvSpec) : Sexp :=
-  list [str es.id, encBool es.star, encOptStr es.meaning, encBool es.parens, list (encParams es.data)]
+  list [str es.id.lex, encBool es.star, encOptPhrase es.meaning, encBool es.parens, list (encParams es.data)]
 def decEv : Sexp → Option EvSpec
   | list [str id, st, m, pa, list ps] => do
     let s ← decBool st
-    let mm ← decOptStr m
+    let mm ← decOptPhrase m
     let p ← decBool pa
     let pp ← decParams ps
-    pure ⟨id, s, mm, p, pp⟩
+    pure ⟨nameTok id, s, mm, p, pp⟩
   | _ => none
 
 def encTarget : EvTarget → Sexp
-  | .cls kl a => list [sym "cls", str kl, encBool a]
-  | .creator kl => list [sym "creator", str kl]
+  | .cls kl a => list [sym "cls", str kl.lex, encBool a]
+  | .creator kl => list [sym "creator", str kl.lex]
   | .inst e => list [sym "inst", encExpr e]
 def decTarget : Sexp → Option EvTarget
-  | list [sym "cls", str kl, a] => (decBool a).map fun aa => .cls kl aa
-  | list [sym "creator", str kl] => some (.creator kl)
+  | list [sym "cls", str kl, a] => (decBool a).map fun aa => .cls (nameTok kl) aa
+  | list [sym "creator", str kl] => some (.creator (nameTok kl))
   | list [sym "inst", e] => (decExpr e).map .inst
   | _ => none
 
@@ -372,22 +394,22 @@ def encStmt : Stmt → Sexp
   | .ret e => list [sym "ret", encOptExpr e]
   | .assign kw va e => list [sym "assign", encBool kw, encExpr va, encExpr e]
   | .invoke inv => list [sym "invoke", encExpr inv]
-  | .kwCall k va ns n ps => list [sym "kwCall", encIKind k, encOptExpr va, str ns, str n, list (encParams ps)]
-  | .trCall va h n ps => list [sym "trCall", encOptExpr va, encExpr h, str n, list (encParams ps)]
-  | .sendEvent p n ps to => list [sym "sendEvent", str p, str n, list (encParams ps), encExpr to]
+  | .kwCall k va ns n ps => list [sym "kwCall", encIKind k, encOptExpr va, str ns, str n.lex, list (encParams ps)]
+  | .trCall va h n ps => list [sym "trCall", encOptExpr va, encExpr h, str n.lex, list (encParams ps)]
+  | .sendEvent p n ps to => list [sym "sendEvent", str p, str n.lex, list (encParams ps), encExpr to]
   | .gen es tg => list [sym "gen", encEv es, encTarget tg]
   | .genPre va => list [sym "genPre", encExpr va]
-  | .crtEv v es tg => list [sym "crtEv", str v, encEv es, encTarget tg]
-  | .createObj v kl => list [sym "createObj", str v, str kl]
-  | .createObjNoVar kl => list [sym "createObjNoVar", str kl]
+  | .crtEv v es tg => list [sym "crtEv", str v.lex, encEv es, encTarget tg]
+  | .createObj v kl => list [sym "createObj", str v.lex, str kl.lex]
+  | .createObjNoVar kl => list [sym "createObjNoVar", str kl.lex]
   | .delete i => list [sym "delete", encInst i]
-  | .forEach v s lp b => list [sym "forEach", str v, str s, encBool lp, list (encBlock b)]
+  | .forEach v s lp b => list [sym "forEach", str v.lex, str s.lex, encBool lp, list (encBlock b)]
   | .while_ c lp b => list [sym "while", encExpr c, encBool lp, list (encBlock b)]
   | .if_ c th b el e => list [sym "if", encExpr c, encBool th, list (encBlock b), list (encElifs el), encElse e]
-  | .rel un a b r ph u => list [sym "rel", encBool un, encInst a, encInst b, str r, encOptStr ph, encOptInst u]
-  | .selFrom card v io kl w => list [sym "selFrom", encCard card, str v, encBool io, str kl, encOptExpr w]
+  | .rel un a b r ph u => list [sym "rel", encBool un, encInst a, encInst b, str r.lex, encOptPhrase ph, encOptInst u]
+  | .selFrom card v io kl w => list [sym "selFrom", encCard card, str v.lex, encBool io, str kl.lex, encOptExpr w]
   | .selRel card v hook chain w =>
-    list [sym "selRel", encCard card, str v, encExpr hook, list (chain.map encStep), encOptExpr w]
+    list [sym "selRel", encCard card, str v.lex, encExpr hook, list (chain.map encStep), encOptExpr w]
 def encBlock : Block → List Sexp
   | .nil => []
   | .cons s b => encStmt s :: encBlock b
@@ -415,16 +437,16 @@ partial def decStmt : Sexp → Option Stmt
     let kk ← decIKind k
     let v ← decOptExpr va
     let pp ← decParams ps
-    pure (.kwCall kk v ns n pp)
+    pure (.kwCall kk v ns (nameTok n) pp)
   | list [sym "trCall", va, h, str n, list ps] => do
     let v ← decOptExpr va
     let hh ← decExpr h
     let pp ← decParams ps
-    pure (.trCall v hh n pp)
+    pure (.trCall v hh (nameTok n) pp)
   | list [sym "sendEvent", str p, str n, list ps, to] => do
     let pp ← decParams ps
     let tt ← decExpr to
-    pure (.sendEvent p n pp tt)
+    pure (.sendEvent p (nameTok n) pp tt)
   | list [sym "gen", es, tg] => do
     let e ← decEv es
     let t ← decTarget tg
@@ -433,14 +455,14 @@ partial def decStmt : Sexp → Option Stmt
   | list [sym "crtEv", str v, es, tg] => do
     let e ← decEv es
     let t ← decTarget tg
-    pure (.crtEv v e t)
-  | list [sym "createObj", str v, str kl] => some (.createObj v kl)
-  | list [sym "createObjNoVar", str kl] => some (.createObjNoVar kl)
+    pure (.crtEv (nameTok v) e t)
+  | list [sym "createObj", str v, str kl] => some (.createObj (nameTok v) (nameTok kl))
+  | list [sym "createObjNoVar", str kl] => some (.createObjNoVar (nameTok kl))
   | list [sym "delete", i] => (decInst i).map .delete
   | list [sym "forEach", str v, str s, lp, list b] => do
     let l ← decBool lp
     let bb ← decBlock b
-    pure (.forEach v s l bb)
+    pure (.forEach (nameTok v) (nameTok s) l bb)
   | list [sym "while", c, lp, list b] => do
     let cc ← decExpr c
     let l ← decBool lp
@@ -457,20 +479,20 @@ partial def decStmt : Sexp → Option Stmt
     let uu ← decBool un
     let aa ← decInst a
     let bb ← decInst b
-    let pp ← decOptStr ph
+    let pp ← decOptPhrase ph
     let us ← decOptInst u
-    pure (.rel uu aa bb r pp us)
+    pure (.rel uu aa bb (nameTok r) pp us)
   | list [sym "selFrom", card, str v, io, str kl, w] => do
     let c ← decCard card
     let i ← decBool io
     let ww ← decOptExpr w
-    pure (.selFrom c v i kl ww)
+    pure (.selFrom c (nameTok v) i (nameTok kl) ww)
   | list [sym "selRel", card, str v, hook, list chain, w] => do
     let c ← decCard card
     let h ← decExpr hook
     let ch ← decSteps chain
     let ww ← decOptExpr w
-    pure (.selRel c v h ch ww)
+    pure (.selRel c (nameTok v) h ch ww)
   | _ => none
 partial def decBlock : List Sexp → Option Block
   | [] => some .nil
